@@ -38,6 +38,7 @@ class State:
         self.op_hist = {}
         self.collect_ops = False
         self.fired = 0
+        self.current_solver = None
 
 
 def render(solver, limit=40):
@@ -98,9 +99,11 @@ def _find_answer(self, backend=None):
         return orig(self, backend)
     ctx = st.ctx
     bname = _backend_name(backend)
+    st.current_solver = self
     try:
         res = orig(self, backend)
     except Exception as e:
+        st.current_solver = None
         ctx.count("msolve.find_answer.raised")
         st.last = {"call": "find_answer", "raised": repr(e)}
         if st.judge_exc:
@@ -114,6 +117,7 @@ def _find_answer(self, backend=None):
                 _report(st, f"find_answer-raises:{type(e).__name__}",
                         f"find_answer({bname}) raised {e!r} on a well-typed program", self)
         raise
+    st.current_solver = None
     ctx.count("msolve.find_answer")
     if st.collect_ops:
         for c in self.constraints:
@@ -171,14 +175,17 @@ def _solve(self, backend=None):
     ctx = st.ctx
     bname = _backend_name(backend)
     # the refinement loop calls csp_solver.solve(), not Solver.find_answer, so no re-entry here
+    st.current_solver = self
     try:
         res = orig(self, backend)
     except Exception as e:
+        st.current_solver = None
         ctx.count("msolve.solve.raised")
         st.last = {"call": "solve", "raised": repr(e)}
         if st.judge_exc and _well_typed(self):
             _report(st, f"solve-raises:{type(e).__name__}", f"solve({bname}) raised {e!r} on a well-typed program", self)
         raise
+    st.current_solver = None
     ctx.count("msolve.solve")
     info = {"call": "solve", "result": res, "backend": bname, "judged": False}
     st.last = info
